@@ -2,6 +2,7 @@ import Mochi.Model.Broker
 import Mochi.Props.C26
 import Mochi.Props.C07
 import Mochi.Lemmas.BrokerWellFormedOut
+import Mochi.Lemmas.BrokerPublishShape
 /-!
 # C23 — Everything the broker writes is well-formed for the client's protocol version
 
@@ -204,3 +205,229 @@ end Mochi.Broker
 #print axioms Mochi.Broker.C23_v3_suback_in_use_downgraded
 #print axioms Mochi.Broker.C23_F23a_counterexample
 #print axioms Mochi.Broker.C23_demo_takeover
+
+/-! ## Broker level, second part: the shape of every written PUBLISH, its topic, the DISCONNECT code table
+
+`Mochi/Lemmas/BrokerPublishShape.lean` (namespace `P23`) walks every function of the sequential broker once more,
+carrying the state invariant `P23.SG T` and the output predicate `P23.OutP T`.  Unlike the `W23` walk it needs no bound
+on object indices, so these theorems hold for EVERY op (`.connectHold` and `.release` included) and every list of ops,
+fresh connection numbers or not.
+
+* `P23.Inv s` (= `SG (fun _ => True) s`): `s.caps.maximumQos ≤ 2`, and every in-flight record of every client object
+  that is a PUBLISH (type 3) has QoS 1 or 2 and a non-zero packet identifier.
+* `P23.InvNW s` (= `SG NoWild s`): the same, and no `+`/`#` in the topic of any in-flight PUBLISH record, retained
+  message, pending delayed will, registered will of a client object, or inbound topic-alias binding.
+
+Where QoS comes from.  The model's inbound QoS (`InPk.publish qos …`, `Will.qos`, `.inlinePublish … qos`, `Sub.qos`) is a
+`Nat` and nothing in M3 refuses a value above 2 (`publishValidate` does not look at it; the real broker cannot receive
+one: `fixedHeaderDecode` — `Model/Codec.lean`, "ErrProtocolViolationQosOutOfRange" when both QoS bits are set — and
+`subscribeDecode` for `sub.qos > 2` refuse it, `ConnectValidate` refuses a will QoS above 2).  What bounds the QoS of
+every OUTBOUND copy is `shapeQos` (`publishToClient`: minimum of the message's QoS, the subscription's QoS and
+`Capabilities.MaximumQos`), so the only hypothesis is `caps.maximumQos ≤ 2` — no hypothesis on inbound QoS, will QoS or
+subscription QoS is needed.  It IS needed: `C23_publish_shape_needs_caps_counterexample` (model level only; Go's
+`Capabilities.MaximumQos` is a byte that `NewServer` does not clamp, default 2).
+-/
+namespace Mochi.Broker
+open Mochi.Topics
+
+/-- `P23.Inv` in every state reached from `init caps` by ANY list of ops, provided the configured maximum QoS is a QoS -/
+theorem C23_publish_inv_reachable (caps : Caps) (hc : caps.maximumQos ≤ 2) (ops : List Op) :
+    P23.Inv (run (init caps) ops) :=
+  P23.SG_run P23.TOK_true caps hc ops (fun op _ => P23.OpT_true op)
+
+/-- `P23.Inv` is kept by every op -/
+theorem C23_publish_inv_step (s : Server) (op : Op) (h : P23.Inv s) : P23.Inv (step s op).1 :=
+  (P23.step_g P23.TOK_true s op h (P23.OpT_true op)).1
+
+/-- **PUBLISH shape.**  Every PUBLISH an op writes — first delivery, retained replay, will, release of a deferred
+    record by `NextImmediate`, resend after a session resumption — is a PUBLISH (type 3) with QoS ≤ 2, packet
+    identifier 0 when QoS is 0 and a non-zero packet identifier when QoS > 0.  Every op, every state of `P23.Inv`.
+    `_partial` only in this: `P23.Inv` contains `s.caps.maximumQos ≤ 2` (FULL statement = the same without a condition
+    on the configuration, for inputs with QoS ≤ 2; it would need the QoS of retained messages, wills and delayed wills
+    tracked in the invariant, which is not done). -/
+theorem C23_publish_shape_partial (s : Server) (op : Op) (h : P23.Inv s) (conn ver : Nat) (m : Msg) (meSet : Bool)
+    (hw : Out.wrote conn (.publish ver m meSet) ∈ (step s op).2) : P23.PubShape m :=
+  ((P23.step_g P23.TOK_true s op h (P23.OpT_true op)).2 _ hw).1
+
+/-- … along a whole history from `init` -/
+theorem C23_publish_shape_history (caps : Caps) (hc : caps.maximumQos ≤ 2) (ops : List Op) (op : Op) (conn ver : Nat)
+    (m : Msg) (meSet : Bool) (hw : Out.wrote conn (.publish ver m meSet) ∈ (step (run (init caps) ops) op).2) :
+    P23.PubShape m :=
+  C23_publish_shape_partial _ op (C23_publish_inv_reachable caps hc ops) conn ver m meSet hw
+
+/-- `P23.InvNW` in every state reached from `init caps` by ops whose CONNECT packets carry wildcard-free will topics -/
+theorem C23_publish_nw_inv_reachable (caps : Caps) (hc : caps.maximumQos ≤ 2) (ops : List Op)
+    (hop : ∀ op ∈ ops, P23.OpT P23.NoWild op) : P23.InvNW (run (init caps) ops) :=
+  P23.SG_run P23.TOK_noWild caps hc ops hop
+
+theorem C23_publish_nw_inv_step (s : Server) (op : Op) (h : P23.InvNW s) (hop : P23.OpT P23.NoWild op) :
+    P23.InvNW (step s op).1 :=
+  (P23.step_g P23.TOK_noWild s op h hop).1
+
+/-- **no wildcard in an outbound topic.**  In a state of `P23.InvNW`, every PUBLISH written by ANY op (`hop`: if the op
+    is a CONNECT with a will, the will topic has no wildcard) has a topic without `+` and `#` (possibly empty: the
+    alias-only form).  `publishValidate` refuses a wildcard topic name, and every other topic the broker ever sends is a
+    copy of an accepted one — EXCEPT will topics, which nothing validates (finding F28b,
+    `C23_F28b_will_wildcard_counterexample`): hence `_partial`.  FULL statement (false) = the same without `hop` and
+    with `P23.Inv` for `P23.InvNW`. -/
+theorem C23_publish_no_wildcard_partial (s : Server) (op : Op) (h : P23.InvNW s) (hop : P23.OpT P23.NoWild op)
+    (conn ver : Nat) (m : Msg) (meSet : Bool) (hw : Out.wrote conn (.publish ver m meSet) ∈ (step s op).2) :
+    P23.NoWild m.topic :=
+  ((P23.step_g P23.TOK_noWild s op h hop).2 _ hw).2
+
+/-- the fan-out of an inbound packet (in particular of `.recv conn (.publish …)`, the `processPublish` path), the
+    record `NextImmediate` releases after it and whatever the teardown publishes: no hypothesis on the op -/
+theorem C23_publish_fanout_no_wildcard (s : Server) (conn0 : Nat) (pk : InPk) (h : P23.InvNW s)
+    (conn ver : Nat) (m : Msg) (meSet : Bool)
+    (hw : Out.wrote conn (.publish ver m meSet) ∈ (step s (.recv conn0 pk)).2) : P23.NoWild m.topic :=
+  C23_publish_no_wildcard_partial s (.recv conn0 pk) h trivial conn ver m meSet hw
+
+/-- the handler alone (`processPublish` after `publishValidate`), for ANY state of `P23.Inv` extended by wildcard-free
+    stores — stated on `receivePacket`, which `recvOn` calls: what it writes and the state it leaves -/
+theorem C23_receivePacket_no_wildcard (s : Server) (i : Nat) (pk : InPk) (h : P23.InvNW s) :
+    P23.InvNW (receivePacket s i pk).1 ∧ ∀ conn ver m meSet,
+      Out.wrote conn (.publish ver m meSet) ∈ (receivePacket s i pk).2.1 → P23.NoWild m.topic :=
+  have g := P23.receivePacket_g P23.TOK_noWild s i pk h
+  ⟨g.1, fun _ _ _ _ hw => (g.2.1 _ hw).2⟩
+
+/-- **the DISCONNECT code table.**  Every DISCONNECT packet an op writes carries 0x82, 0x87, 0x8E, 0x90, 0x93 or 0x94
+    (`P23.DiscCode`; the keep-alive DISCONNECT is not in M3 — model M6 `Keepalive`).  Every op, every state of
+    `P23.Inv`; the table is tight (`C23_demo_disconnect_codes`). -/
+theorem C23_disconnect_code_table (s : Server) (op : Op) (h : P23.Inv s) (conn ver code : Nat)
+    (hw : Out.wrote conn (.disconnect ver code) ∈ (step s op).2) : P23.DiscCode code :=
+  (P23.step_g P23.TOK_true s op h (P23.OpT_true op)).2 _ hw
+
+/-! ### concrete histories -/
+
+/-- what is shown of a written PUBLISH -/
+structure C23Pub where
+  conn : Nat
+  ver : Nat
+  qos : Nat
+  id : Nat
+  dup : Bool
+  topic : Str
+deriving DecidableEq, Repr
+
+/-- (connection, version, QoS, packet id, DUP, topic) of every PUBLISH written -/
+def c23Pubs (o : List Out) : List C23Pub :=
+  o.filterMap (fun x => match x with
+    | .wrote c (.publish v m _) => some ⟨c, v, m.qos, m.id, m.dup, m.topic⟩ | _ => none)
+
+/-- (connection, version, code) of every DISCONNECT written -/
+def c23Discs (o : List Out) : List (Nat × Nat × Nat) :=
+  o.filterMap (fun x => match x with | .wrote c (.disconnect v code) => some (c, v, code) | _ => none)
+
+/-- every written PUBLISH has the shape, checked by evaluation -/
+def c23AllShaped (o : List Out) : Bool :=
+  o.all (fun x => match x with | .wrote _ (.publish _ m _) => decide (P23.PubShape m ∧ P23.NoWild m.topic) | _ => true)
+
+/-- a subscriber "s" (MQTT 5, persistent session, Receive Maximum 1, QoS 2 on `a`), a publisher "p": a QoS 1 delivery,
+    a QoS 2 copy deferred by flow control (stored, not written), a QoS 0 delivery, then "s" reconnects (take-over,
+    resend with DUP, release of the deferred record), acknowledges, a retained message is published and replayed -/
+def c23ShapeDemo : List Op :=
+  [.connect 1 { ver := 5, id := [115], clean := false, sei := some 100, rm := some 1 },
+   .recv 1 (.subscribe 1 0 [{ filter := [97], qos := 2 }]),
+   .connect 2 { ver := 5, id := [112] },
+   .recv 2 (.publish 1 false false 9 [97] [120] 0 none),
+   .recv 2 (.publish 2 false false 10 [97] [121] 0 none),
+   .recv 2 (.publish 0 false false 0 [97] [122] 0 none),
+   .connect 3 { ver := 5, id := [115], clean := false, sei := some 100, rm := some 5 },
+   .recv 3 (.puback 1 0),
+   .recv 2 (.publish 1 false true 11 [97] [119] 0 none),
+   .recv 3 (.subscribe 2 0 [{ filter := [35], qos := 1 }])]
+
+set_option maxRecDepth 1000000 in
+/-- the conclusions of `C23_publish_shape_partial` / `C23_publish_no_wildcard_partial` are not vacuous: first delivery
+    (QoS 1, id 1), QoS 0 (id 0), resend with DUP of the records 1 and 2 and the release of record 2, a new delivery, the
+    retained replay (QoS 1, id 2); the take-over writes DISCONNECT 0x8E -/
+theorem C23_demo_publish_shape :
+    (R07.outsOf (init {}) c23ShapeDemo).map c23Pubs =
+      [[], [], [], [⟨1, 5, 1, 1, false, [97]⟩], [], [⟨1, 5, 0, 0, false, [97]⟩],
+       [⟨3, 5, 1, 1, true, [97]⟩, ⟨3, 5, 2, 2, true, [97]⟩, ⟨3, 5, 2, 2, false, [97]⟩], [],
+       [⟨3, 5, 1, 1, false, [97]⟩], [⟨3, 5, 1, 2, false, [97]⟩]] ∧
+    (R07.outsOf (init {}) c23ShapeDemo).all c23AllShaped = true ∧
+    (R07.outsOf (init {}) c23ShapeDemo).map c23Discs = [[], [], [], [], [], [], [(1, 5, 0x8E)], [], [], []] ∧
+    (∀ op ∈ c23ShapeDemo, P23.OpT P23.NoWild op) := by
+  refine ⟨by decide, by decide, by decide, by decide⟩
+
+set_option maxRecDepth 1000000 in
+/-- **F28b (recorded): a will topic is not validated.**  An MQTT 3.1.1 client connects with the will topic `+/b`; its
+    connection drops; the subscriber of `#` is written a PUBLISH whose topic NAME is `+/b` (43 47 98).  This is the
+    counterexample of `C23_publish_no_wildcard_partial` without `hop`. -/
+theorem C23_F28b_will_wildcard_counterexample :
+    (R07.outsOf (init {})
+      [.connect 1 { ver := 4, id := [115] }, .recv 1 (.subscribe 1 0 [{ filter := [35], qos := 1 }]),
+       .connect 2 { ver := 4, id := [119], will := some { topic := [43, 47, 98], payload := [120], qos := 1 } },
+       .drop 2]).map c23Pubs = [[], [], [], [⟨1, 4, 1, 1, false, [43, 47, 98]⟩]] := by decide
+
+set_option maxRecDepth 1000000 in
+/-- the hypothesis `caps.maximumQos ≤ 2` of `P23.Inv` is needed IN THE MODEL: with `maximumQos := 3` a subscription and
+    a PUBLISH of "QoS 3" (undecodable on the wire: `fixedHeaderDecode` / `subscribeDecode` refuse it) yield a written
+    PUBLISH with QoS 3.  Not a defect of the Go code. -/
+theorem C23_publish_shape_needs_caps_counterexample :
+    (R07.outsOf (init { maximumQos := 3 })
+      [.connect 1 { ver := 4, id := [115] }, .recv 1 (.subscribe 1 0 [{ filter := [97], qos := 3 }]),
+       .connect 2 { ver := 4, id := [112] }, .recv 2 (.publish 3 false false 9 [97] [120] 0 none)]).map c23Pubs =
+      [[], [], [], [⟨1, 4, 3, 1, false, [97]⟩]] := by decide
+
+/-- Receive Maximum 1, Topic Alias Maximum 5, client "d" may not publish to `a` -/
+def c23DiscStart : Server :=
+  { init { receiveMaximum := 1, topicAliasMaximum := 5 } with aclDeny := [([100], [97], true)] }
+
+/-- one history per code of the table -/
+def c23DiscDemo : List Op :=
+  [.connect 1 { ver := 5, id := [97] },
+   .recv 1 (.publish 2 false false 1 [116] [120] 0 none),
+   .recv 1 (.publish 1 false false 2 [116] [120] 0 none),          -- receive maximum exceeded: 0x93
+   .connect 2 { ver := 5, id := [98] },
+   .recv 2 (.publish 0 false false 0 [116] [120] 0 (some 6)),       -- alias above the maximum: 0x94
+   .connect 3 { ver := 4, id := [100] },
+   .recv 3 (.publish 1 false false 1 [97] [120] 0 none),            -- not authorized, MQTT 3: 0x87 (F23b)
+   .connect 4 { ver := 4, id := [101] },
+   .recv 4 (.publish 1 false false 1 [36, 83, 89, 83, 47, 120] [120] 0 none),  -- `$SYS/x`, MQTT 3: 0x90 (F23b)
+   .connect 5 { ver := 5, id := [102] },
+   .connect 6 { ver := 5, id := [102] },                            -- take-over: 0x8E
+   .connect 7 { ver := 5, id := [103] },
+   .recv 7 (.subscribe 1 0 [])]                                     -- no filter: 0x82
+
+set_option maxRecDepth 1000000 in
+/-- `C23_disconnect_code_table` is tight: each of the six codes is written by some op; `c23DiscStart` satisfies
+    `P23.Inv` trivially (no in-flight record) -/
+theorem C23_demo_disconnect_codes :
+    ((R07.outsOf c23DiscStart c23DiscDemo).map c23Discs).flatten =
+      [(1, 5, 0x93), (2, 5, 0x94), (3, 4, 0x87), (4, 4, 0x90), (5, 5, 0x8E), (7, 5, 0x82)] := by decide
+
+theorem C23_demo_disconnect_start_inv : P23.Inv c23DiscStart :=
+  P23.SG.upd (P23.SG_init P23.TOK_true { receiveMaximum := 1, topicAliasMaximum := 5 } (by decide)) rfl rfl rfl rfl
+
+set_option maxRecDepth 1000000 in
+/-- why `W23.Covered` (the version / "written to an OPEN object" walk) cannot simply be extended to `.release`: a
+    connection parked in the authentication hook (`connectHold … 1`) is dropped — its object is closed — and then
+    released: the MODEL writes the CONNACK on that connection although the object is closed (`admitConnack` does not
+    look at `isOpen`; the real `SendConnack` fails on the closed connection).  `W23.OutOK` ("… is OPEN") is false for
+    this `.release`; an extension needs the hypothesis that no stage-1 parked connection is dropped, or a model change.
+    The `P23` theorems above do cover `.connectHold` / `.release` (they do not speak about `isOpen`). -/
+theorem C23_hold_drop_release_counterexample :
+    (getObj (run (init {}) [.connectHold 1 { ver := 4, id := [97] } 1, .drop 1]) 1).isOpen = false ∧
+    (R07.outsOf (init {}) [.connectHold 1 { ver := 4, id := [97] } 1, .drop 1, .release 1]).getLast? =
+      some [.wrote 1 (.connack 4 false 0 1024 2 none)] := by decide
+
+end Mochi.Broker
+
+#print axioms Mochi.Broker.C23_hold_drop_release_counterexample
+#print axioms Mochi.Broker.C23_publish_inv_reachable
+#print axioms Mochi.Broker.C23_publish_inv_step
+#print axioms Mochi.Broker.C23_publish_shape_partial
+#print axioms Mochi.Broker.C23_publish_shape_history
+#print axioms Mochi.Broker.C23_publish_nw_inv_reachable
+#print axioms Mochi.Broker.C23_publish_nw_inv_step
+#print axioms Mochi.Broker.C23_publish_no_wildcard_partial
+#print axioms Mochi.Broker.C23_publish_fanout_no_wildcard
+#print axioms Mochi.Broker.C23_receivePacket_no_wildcard
+#print axioms Mochi.Broker.C23_disconnect_code_table
+#print axioms Mochi.Broker.C23_demo_publish_shape
+#print axioms Mochi.Broker.C23_F28b_will_wildcard_counterexample
+#print axioms Mochi.Broker.C23_publish_shape_needs_caps_counterexample
+#print axioms Mochi.Broker.C23_demo_disconnect_codes
+#print axioms Mochi.Broker.C23_demo_disconnect_start_inv
